@@ -12,15 +12,22 @@ REQUIRED_THEOREMS = ["sda_changes_under_scl_high_only_for_start_stop", "busy_low
                      "sda_and_scl_never_change_together"]
 RULE = ("cases = (period_cyc, clk_stretch) x behaviour; cooperative: random operation sequences (start, repeated "
         "start, write, read, stop) issued when busy is low, behavioural target on open-drain wired-AND lines (ACK/NAK, "
-        "read data MSB first set up at a random point of the low phase, random clock stretching after falling edges "
-        "when clk_stretch is on); chaotic: strobes at any time incl. several at once, target pulling SDA/SCL at random")
+        "read data MSB first; per data/ACK bit either set up at a random early point of the low phase, or - 45% of the "
+        "bits - LATE: SDA carries the inverted level (or the previous bit) through the low phase / the clock stretch and "
+        "takes its valid level only 1-3 (clk_stretch off: 2-4) system cycles before SCL actually rises at the pads, "
+        "held until SCL falls; random clock stretching after falling edges when clk_stretch is on, incl. stretches that "
+        "end within +-2 cycles of the initiator's own release); the read-data / ack_o checks judge against the SDA "
+        "level during the SCL-high period; chaotic: strobes at any time incl. several at once, target pulling SDA/SCL "
+        "at random")
 ASSUMPTIONS = [
     "pads are open drain with both lines bidirectional (I2CBus record); the two-stage FFSynchronizer is modelled as "
     "the fixed 2-cycle delay pysim gives it",
     "'SCL high' in the safety theorem is judged by the initiator's own SCL drive (scl_o = 1, i.e. it has released "
     "the line): whenever the initiator holds SCL low the line is low, so this is the conservative reading",
-    "cooperative-target monitors: the target changes SDA only while the SCL line is low and stretches only directly "
-    "after a falling edge; period_cyc >= 8",
+    "cooperative-target monitors: the target changes SDA only while the SCL line is low (SDA stable over the whole "
+    "SCL-high period, set-up time to the rising pad edge >= 1 system cycle with clk_stretch, >= 2 = synchroniser "
+    "latency without: there the initiator samples one cycle after releasing SCL without looking at the line) and "
+    "stretches only directly after a falling edge; period_cyc >= 8",
 ]
 PARTIAL = ""
 
@@ -52,8 +59,18 @@ class _Agent:
         self.op = None              # operation in progress: (name, value)
         self.nfall = 0
         self.pending_bit = None     # (delay, value) SDA level the target will drive
+        self.late_bit = None        # (delay, value): the VALID level, driven only shortly before SCL rises
+        self.pred = []              # (cycle of the falling edge, predicted offset of the rising edge, set-up) - diagnostics
+        self.t = -1
         self.started = False
         self.wait = 3
+
+    def _low_len(self):
+        """Length of the SCL-low phase in system cycles when nobody stretches: two quarter periods of
+        period_cyc // 4 + 1 cycles; with clk_stretch the quarter timer additionally waits the two synchroniser
+        cycles until the initiator sees its own falling edge.  (Only used to place SDA changes late in the low phase;
+        the monitor does not rely on it.)"""
+        return 2 * (self.P // 4 + 1) + (2 if self.stretch else 0)
 
     def cycle(self, scl_oe, sda_oe, busy):
         r = self.rng
@@ -69,6 +86,7 @@ class _Agent:
                 self.t_scl_low -= 1
             return [scl, sda] + strobes + [r.bits(8), r.below(2)]
         # ---- cooperative target
+        self.t += 1
         if self.t_scl_low:
             self.t_scl_low -= 1
         scl = 0 if (scl_oe or self.t_scl_low) else 1
@@ -77,22 +95,37 @@ class _Agent:
         if fell and self.op:
             self.nfall += 1
             name, val = self.op
+            S = 0
             if self.stretch and r.chance(60 if self.kind == 2 else 15):
-                self.t_scl_low = r.range(1, 2 * self.P)
+                S = self.t_scl_low = r.choice([r.range(1, 2 * self.P), r.range(1, 2 * self.P), self._low_len() + r.range(-2, 3)])
                 scl = 0
             delay = r.range(0, max(0, self.P // 4 - 1))
+            self.late_bit = None
+            bit = None               # the level the target has to present during the coming SCL-high period
             if name == "write":
                 if self.nfall == 9:
-                    self.pending_bit = (delay, 0 if val else 1)      # ACK = pull low
+                    bit = 0 if val else 1                            # ACK = pull low
                 elif self.nfall > 9:
                     self.pending_bit = (0, 1)
             elif name == "read":
                 if self.nfall <= 8:
-                    self.pending_bit = (delay, (val >> (8 - self.nfall)) & 1)
+                    bit = (val >> (8 - self.nfall)) & 1
                 else:
                     self.pending_bit = (0, 1)
             else:
                 self.pending_bit = (0, 1)
+            if bit is not None:
+                if r.chance(45):
+                    # late target: SDA carries the wrong level (or the previous bit) during the low phase / the
+                    # stretch and becomes valid only `setup` cycles before SCL actually rises at the pads
+                    rise = max(self._low_len(), S)                   # offset of the first SCL-high cycle from this one
+                    setup = r.choice([0, 0, 0, 1, 1, 2]) + (1 if self.stretch else 2)
+                    if r.chance(75):
+                        self.pending_bit = (min(r.range(0, 2), rise - setup - 1), 1 - bit)   # garbage first
+                    self.late_bit = (rise - setup, bit)
+                    self.pred.append((self.t, rise, setup))
+                else:
+                    self.pending_bit = (delay, bit)
         if self.pending_bit is not None:
             d, v = self.pending_bit
             if d == 0:
@@ -100,6 +133,13 @@ class _Agent:
                 self.pending_bit = None
             else:
                 self.pending_bit = (d - 1, v)
+        if self.late_bit is not None:
+            d, v = self.late_bit
+            if d == 0:
+                self.t_sda_low = 0 if v else 1
+                self.late_bit = None
+            else:
+                self.late_bit = (d - 1, v)
         sda = 0 if (sda_oe or self.t_sda_low) else 1
         strobes = [0, 0, 0, 0]
         data_i, ack_i = r.bits(8), r.below(2)
@@ -217,6 +257,25 @@ def monitor(desc, stim, rows):
             first = next((names[k] for k in range(4) if stim[t][2 + k]), None)
             if first:
                 ops.append((first, t, stim[t][6], stim[t][7]))
+    def high_level(u, te):
+        """SDA line level during the SCL-high period that starts with the rising pad edge in cycle u: the value the
+        protocol says is transferred.  None when the line is not stable over the whole period (then no value is
+        defined; a cooperative target never does that)."""
+        v = u
+        while v < te and stim[v][0] == 1:
+            if stim[v][1] != stim[u][1]:
+                return None
+            v += 1
+        return stim[u][1]
+
+    def setup_tags(u, what):
+        # coverage: how late before the rising edge did SDA take its final level, and was SCL being stretched
+        if any(stim[v][1] != stim[u][1] for v in range(max(0, u - 3), u)):
+            tags.add(what + "-sda-valid-late")
+            if all(rows[v][0] == 0 and stim[v][0] == 0 for v in range(max(0, u - 4), u)):
+                tags.add(what + "-sda-valid-late-after-stretch")
+            tags.add(what + "-sda-valid-late-%s" % ("clk_stretch-on" if stretch else "clk_stretch-off"))
+
     for k, (name, t0, data_i, ack_i) in enumerate(ops):
         t1 = ops[k + 1][1] if k + 1 < len(ops) else None
         if t1 is None:
@@ -237,21 +296,35 @@ def monitor(desc, stim, rows):
                 fail(rises[7], "write-bits", "write of %#04x put %#04x on SDA (MSB first)" % (data_i, got))
             if rows[rises[8]][1]:
                 fail(rises[8], "write-ack-not-released", "initiator drives SDA during the acknowledge clock of a write")
-            acked = 1 if stim[rises[8]][1] == 0 else 0
+            lvl = high_level(rises[8], te)
+            if lvl is None:
+                tags.add("target-sda-unstable")
+                continue
+            setup_tags(rises[8], "write-ack")
+            acked = 1 if lvl == 0 else 0
             tags.add("write-ack" if acked else "write-nak")
             if rows[te][3] != acked:
-                fail(te, "write-ack-value", "ack_o=%d but the target %s" % (rows[te][3], "acknowledged" if acked else "did not acknowledge"))
+                fail(te, "write-ack-value", "ack_o=%d but the target %s (SDA=%d while SCL was high in cycles %d..)"
+                     % (rows[te][3], "acknowledged" if acked else "did not acknowledge", lvl, rises[8]))
         elif name == "read":
             if len(rises) != 9:
                 fail(te, "read-clock-count", "read produced %d SCL pulses" % len(rises))
                 continue
             got = 0
             for u in rises[:8]:
-                got = (got << 1) | stim[u][1]
+                lvl = high_level(u, te)
+                if lvl is None:
+                    got = None
+                    break
+                setup_tags(u, "read-bit")
+                got = (got << 1) | lvl
                 if rows[u][1]:
                     fail(u, "read-sda-driven", "initiator drives SDA during a read data clock")
-            if rows[te][4] != got:
-                fail(te, "read-data", "data_o=%#04x, the target sent %#04x" % (rows[te][4], got))
+            if got is None:
+                tags.add("target-sda-unstable")
+            elif rows[te][4] != got:
+                fail(te, "read-data", "data_o=%#04x, but SDA carried %#04x during the eight SCL-high periods (first bit = MSB)"
+                     % (rows[te][4], got))
             if rows[rises[8]][1] != ack_i:
                 fail(rises[8], "read-ack-drive", "ack_i=%d but sda.oe=%d during the acknowledge clock" % (ack_i, rows[rises[8]][1]))
             tags.add("read-ack" if ack_i else "read-nak")
